@@ -29,6 +29,7 @@ type msScen struct {
 	Close   bool       `json:"close"`              // writer calls Close at the end
 	LongSeg int        `json:"long_seg,omitempty"` // 1: the writer skips key frames so that its second segment is three times as long
 	Params  int        `json:"params"`             // frame index (relative to the writer's first) that switches the parameter set; 0 none
+	Big     int        `json:"big,omitempty"`      // extra payload bytes per video frame (responses that take several Writes)
 	Reqs    [][]string `json:"reqs"`               // per requester thread, request symbols
 	Bound   int        `json:"bound"`
 	Shard   int        `json:"shard"`
@@ -40,8 +41,12 @@ func (s msScen) name() string {
 	for _, r := range s.Reqs {
 		rs = append(rs, strings.Join(r, ">"))
 	}
-	return fmt.Sprintf("%s {%s} warm=%d writes=%d close=%v params=%d long=%d reqs=[%s] bound=%d shard=%d/%d",
-		s.Prop, s.Cfg, s.Warm, s.Writes, s.Close, s.Params, s.LongSeg, strings.Join(rs, " | "), s.Bound, s.Shard, s.Shards)
+	big := ""
+	if s.Big != 0 {
+		big = fmt.Sprintf(" big=%d", s.Big)
+	}
+	return fmt.Sprintf("%s {%s} warm=%d writes=%d close=%v params=%d long=%d%s reqs=[%s] bound=%d shard=%d/%d",
+		s.Prop, s.Cfg, s.Warm, s.Writes, s.Close, s.Params, s.LongSeg, big, strings.Join(rs, " | "), s.Bound, s.Shard, s.Shards)
 }
 
 // frame feeder: video frame i at i*frameMS, random access every gop frames (one SegmentMinDuration); audio access
@@ -59,6 +64,7 @@ type msFeeder struct {
 	offMS     int64
 	skipArmed bool
 	skipRA    int // number of upcoming key frames to write as ordinary frames (makes a long segment)
+	big       int // extra payload bytes per video frame
 }
 
 func newFeeder(mi *muxInst) *msFeeder {
@@ -113,7 +119,7 @@ func (f *msFeeder) feed(switchParams bool) error {
 	}
 	if f.vtrack >= 0 {
 		f.seq++
-		u := wunit{Track: f.vtrack, DTS: tms * 90, RA: i%f.gop == 0, Seq: f.seq}
+		u := wunit{Track: f.vtrack, DTS: tms * 90, RA: i%f.gop == 0, Seq: f.seq, Size: f.big}
 		if u.RA && f.skipRA > 0 && f.skipArmed {
 			f.skipRA--
 			u.RA = false
@@ -152,6 +158,7 @@ type msState struct {
 	progress   int
 	closeStart bool
 	closed     bool
+	writerDone bool // the writer thread has finished (Close included, if the scenario closes)
 	writeErr   error
 	logs       []*msReqLog
 	epilogue   []*msReqLog
@@ -252,6 +259,16 @@ func (st *msState) resolve(sym string, prev *msReqLog) string {
 			return vPartPath(ls.prefix, ls.id, ls.nextPartID-1)
 		}
 		return "none.mp4"
+	case sym == "PARTA" || sym == "PARTB": // first / second part of the newest complete segment
+		for i := len(ls.segments) - 1; i >= 0; i-- {
+			if sg, ok := ls.segments[i].(*muxerSegmentFMP4); ok && len(sg.parts) >= 2 {
+				if sym == "PARTA" {
+					return sg.parts[0].path
+				}
+				return sg.parts[1].path
+			}
+		}
+		return "none.mp4"
 	case sym == "UNK":
 		return "nonexistent_seg99.mp4"
 	case strings.HasPrefix(sym, "FOLLOW"):
@@ -312,6 +329,7 @@ func msSetup(sc msScen, scratch string) func(s *vsched.Sched) any {
 		}
 		st.mi = mi
 		st.feeder = newFeeder(mi)
+		st.feeder.big = sc.Big
 		for i := 0; i < sc.Warm; i++ {
 			if err := st.feeder.feed(false); err != nil {
 				panic(fmt.Sprintf("warm-up write failed: %v", err))
@@ -354,6 +372,7 @@ func msSetup(sc msScen, scratch string) func(s *vsched.Sched) any {
 				st.closed = true
 				st.mu.Unlock()
 			}
+			st.writerDone = true
 		})
 		for ri, syms := range sc.Reqs {
 			name := fmt.Sprintf("req%d", ri)
@@ -362,9 +381,16 @@ func msSetup(sc msScen, scratch string) func(s *vsched.Sched) any {
 				var prev *msReqLog
 				for _, sym := range syms {
 					l := &msReqLog{Thread: name, Sym: sym, Done: -1, Issued: st.getProgress()}
+					// "SYM!stall": the client stops taking the response body until the writer has finished (Close included)
+					var stall func() bool
+					if strings.HasSuffix(sym, "!stall") {
+						sym = strings.TrimSuffix(sym, "!stall")
+						l.Sym = sym
+						stall = func() bool { return st.writerDone }
+					}
 					l.URL = st.resolve(sym, prev)
 					st.addLog(l)
-					r := muxGet(st.mi.m, l.URL)
+					r := muxGetStalled(st.mi.m, l.URL, stall)
 					p := st.getProgress()
 					st.mu.Lock()
 					l.Status, l.Body, l.CT = r.Status, r.Body.Bytes(), r.Hdr.Get("Content-Type")
